@@ -291,3 +291,43 @@ Definition disk (n : nat) (st : wstate) (j : nat) : list efiles :=
   | [] => []
   end.
 Definition recovered_disk (n : nat) (st : wstate) (j : nat) : store := over (lww (flushed st)) (lww (replay_disk (disk n st j))).
+
+(* ---- concurrent write requests on the WAL (engine/wal.go WAL.Write / writeBinary) ---- *)
+(* A request first passes an exclusive section on the WAL's lock (WAL.Write: l.mu.Lock, maxRowTime, l.mu.Unlock) - with
+   barrier = true it can do so only while no request holds the lock shared; then, holding the lock shared (writeBinary:
+   l.mu.RLock), it takes its slot (writeReq++) and appends its record to partition slot mod n under that partition's lock -
+   requests that are inside together may append to one partition in ANY order; then it releases the lock and is
+   acknowledged. A request is named by its slot. Ghost: cw_quiet = for every entry into the exclusive section the counter
+   value at that moment and the requests acknowledged by then. A request that enters then or later gets a slot >= that
+   counter value (slots are handed out in increasing order). *)
+Record cwstate := mkcw0 {
+  cw_ctr : nat; cw_parts : list (list nat);
+  cw_waiting : nat;                 (* requests that passed the exclusive section and have no slot yet *)
+  cw_inside : list nat;             (* slot taken, record not appended: these hold the lock shared *)
+  cw_appended : list nat; cw_acked : list nat;
+  cw_quiet : list (nat * list nat) }.
+Inductive cwop := CEnter | CSlot | CAppend (s : nat) | CAck (s : nat).
+Definition memb (x : nat) (l : list nat) : bool := existsb (Nat.eqb x) l.
+Definition cwstep (barrier : bool) (n : nat) (st : cwstate) (o : cwop) : cwstate :=
+  match o with
+  | CEnter =>
+      if barrier && negb (match cw_inside st with [] => true | _ => false end) then st
+      else mkcw0 (cw_ctr st) (cw_parts st) (S (cw_waiting st)) (cw_inside st) (cw_appended st) (cw_acked st)
+                 ((cw_ctr st, cw_acked st) :: cw_quiet st)
+  | CSlot =>
+      match cw_waiting st with
+      | S k => mkcw0 (S (cw_ctr st)) (cw_parts st) k (cw_ctr st :: cw_inside st) (cw_appended st) (cw_acked st) (cw_quiet st)
+      | 0 => st
+      end
+  | CAppend s =>
+      if memb s (cw_inside st)
+      then mkcw0 (cw_ctr st) (app_at (s mod n) s (cw_parts st)) (cw_waiting st) (remove Nat.eq_dec s (cw_inside st))
+                 (s :: cw_appended st) (cw_acked st) (cw_quiet st)
+      else st
+  | CAck s => if memb s (cw_appended st)
+              then mkcw0 (cw_ctr st) (cw_parts st) (cw_waiting st) (cw_inside st) (cw_appended st) (s :: cw_acked st) (cw_quiet st)
+              else st
+  end.
+Definition cwinit (n : nat) : cwstate := mkcw0 0 (repeat [] n) 0 [] [] [] [].
+Definition cwrun (barrier : bool) (n : nat) (ops : list cwop) : cwstate := fold_left (cwstep barrier n) ops (cwinit n).
+Definition cw_replay (st : cwstate) : list nat := replay (total (cw_parts st)) (cw_parts st).
